@@ -233,7 +233,7 @@ class C14(Check):
     reference_models = ["ref/refext4.py check() rules R5.* (every checksum of the format, own CRC tables)", "independent JBD2 checksum verifier (this file)"]
 
     def budget(self, tier):
-        return {"runs": 1600, "wall_s": 80} if tier == "quick" else {"runs": 20000, "wall_s": 1500}
+        return {"runs": 1600, "wall_s": 80} if tier == "quick" else {"runs": 12000, "wall_s": 1500}
 
     def generate(self, rng, tier):
         cs = rng.weighted([("metadata_csum", 8), ("uninit_bg", 2)])
